@@ -332,6 +332,10 @@ def truthy(x):
         return Const(len(x.items) > 0)
     if isinstance(x, Obj) and getattr(x, 'truth', None) is not None:
         return Const(x.truth)
+    if isinstance(x, Ite):
+        ta, tb = truthy(x.a), truthy(x.b)
+        if isinstance(ta, Const) and isinstance(tb, Const):
+            return mk_ite(x.cond, ta, tb)
     if isinstance(x, DictV) and not x.has_symbolic():
         return Const(len(x.keys()) > 0)
     return BoolT('truthy', (x,))
@@ -517,6 +521,13 @@ class Evaluator:
             return Obj('PixCoord', {'x': x, 'y': y}, None, ci)
         init = self.m.method(ci, '__init__')
         obj = Obj(ci.name, {}, None, ci)
+        if init is None and any('dataclass' in ast.unparse(d) for d in ci.node.decorator_list):
+            flds = [b.target.id for b in ci.node.body if isinstance(b, ast.AnnAssign) and isinstance(b.target, ast.Name)]
+            for f, v in zip(flds, args):
+                obj.fields[f] = v
+            for k, v in kwargs.items():
+                obj.fields[k] = v
+            return obj
         if init is None:
             if ci.name in ('RegionMeta', 'RegionVisual', 'Meta'):
                 return App(ci.name, tuple(args))
@@ -830,6 +841,22 @@ class Evaluator:
             if isinstance(base, Obj):
                 base.fields[t.attr] = v
             fr.effects.append(('setattr', base, t.attr, v))
+        elif isinstance(t, ast.Subscript) and isinstance(t.slice, ast.Slice) and isinstance(t.value, ast.Name) \
+                and isinstance(self.expr(t.value, env, fr), Tup) and isinstance(v, Tup):
+            base = self.expr(t.value, env, fr)
+
+            def iv(x):
+                if x is None:
+                    return None
+                r = self.expr(x, env, fr)
+                return int(r) if isinstance(r, sp.Integer) else 'sym'
+            lo, hi = iv(t.slice.lower), iv(t.slice.upper)
+            if 'sym' in (lo, hi) or t.slice.step is not None:
+                env[t.value.id] = Unknown('slice assignment with symbolic bounds')
+            else:
+                items = list(base.items)
+                items[slice(lo, hi)] = list(v.items)
+                env[t.value.id] = Tup(tuple(items), base.kind)
         elif isinstance(t, ast.Subscript):
             base = self.expr(t.value, env, fr)
             k = self.expr(t.slice, env, fr)
@@ -1092,7 +1119,8 @@ class Evaluator:
             return BoolT('and' if isand else 'or', tuple(out))
 
     def compare(self, op, a, b):
-        if isinstance(a, Ite) and isinstance(b, Const):
+        if isinstance(a, Ite) and (isinstance(b, Const) or (
+                isinstance(a.a, Const) and isinstance(a.b, (Const, Ite)))):
             return mk_ite(a.cond, self.compare(op, a.a, b), self.compare(op, a.b, b))
         if isinstance(op, (ast.Is, ast.IsNot)):
             pos = isinstance(op, ast.Is)
@@ -1312,6 +1340,12 @@ class Evaluator:
         # method call on a value
         if isinstance(n.func, ast.Attribute):
             base = self.expr(n.func.value, env, fr)
+            if isinstance(base, Ite) and isinstance(n.func.value, ast.Name) and n.func.attr == 'append' \
+                    and len(args) == 1:
+                r = _append_ite(base, args[0])
+                if r is not None:
+                    env[n.func.value.id] = r
+                    return Const(None)
             if isinstance(base, Tup) and base.kind == 'list' and isinstance(n.func.value, ast.Name) \
                     and n.func.attr in ('append', 'extend') and len(args) == 1:
                 if n.func.attr == 'append':
@@ -1367,6 +1401,11 @@ class Evaluator:
             r = self.hooks['method:' + meth](self, [base] + list(args), kwargs)
             if r is not NotImplemented:
                 return r
+        if isinstance(base, Ite) and isinstance(base.a, Const) and meth in ('lower', 'upper', 'replace', 'strip', 'startswith'):
+            ra = self.method_call(base.a, meth, args, kwargs, fr, node)
+            rb = self.method_call(base.b, meth, args, kwargs, fr, node)
+            if ra is not NotImplemented and rb is not NotImplemented:
+                return mk_ite(base.cond, ra, rb)
         if isinstance(base, Const) and isinstance(base.v, str):
             cargs = [a.v for a in args if isinstance(a, Const)]
             if len(cargs) == len(args) and not kwargs and meth in (
@@ -1728,6 +1767,17 @@ def _reachable_objs(env, fr):
     return out
 
 
+def _append_ite(base, item):
+    if isinstance(base, Tup) and base.kind == 'list':
+        return Tup(base.items + (item,), 'list')
+    if isinstance(base, Ite):
+        a, b = _append_ite(base.a, assume(item, base.cond, True)), _append_ite(base.b, assume(item, base.cond, False))
+        if a is None or b is None:
+            return None
+        return mk_ite(base.cond, a, b)
+    return None
+
+
 def _finite_len(args):
     ns = []
     for x in args:
@@ -1811,6 +1861,10 @@ def _index(base, k):
         if -len(base.items) <= k < len(base.items):
             return base.items[k]
         return Unknown('index out of range')
+    if isinstance(base, Const) and isinstance(base.v, str) and isinstance(k, int):
+        if -len(base.v) <= k < len(base.v):
+            return Const(base.v[k])
+        return Unknown('string index out of range')
     if isinstance(base, DictV) and isinstance(k, Const):
         v = base.get(k.v)
         if v is not None and not (isinstance(v, Const) and v.v == '__absent__'):
